@@ -2,7 +2,13 @@
 
 package reader
 
-import "github.com/milvus-io/milvus/pkg/mq/msgstream"
+import (
+	clientv3 "go.etcd.io/etcd/client/v3"
+
+	"github.com/milvus-io/milvus/pkg/mq/msgstream"
+
+	"github.com/zilliztech/milvus-cdc/core/config"
+)
 
 // verifYield is a no-op unless built with the verif tag (see verif_on.go).
 func verifYield(point string, channel string, collectionID int64) {}
@@ -12,3 +18,6 @@ func verifNote(point string, channel string, a uint64, ref any) {}
 
 // verifBarrierKey is only meaningful with the verif tag.
 func verifBarrierKey(m msgstream.TsMsg) int64 { return 0 }
+
+// verifEtcdClient never provides a client unless built with the verif tag.
+func verifEtcdClient(cfg config.EtcdServerConfig) *clientv3.Client { return nil }
